@@ -167,6 +167,14 @@ def check(run, model, tier):
     run.rule('TRUTH.queue', 'a queue handed to the fabric is never tested for truth (an empty queue is falsy: whether it is registered would depend on pending events)')
     from sa import ident
     ident.check_queue_truth(run, model, 'TRUTH.queue', classes=('ActiveFabricSource',), floor=2)
+    run.rule('DEFAULT.kind', 'subscribe paths replace queue_type by the default only where the caller passed None: a lifo subscription stays a lifo subscription')
+    from sa.util import check_param_defaults as _cpd
+    n_k = 0
+    for cn_, mn_ in (('ActiveFabricSource', 'subscribe'), ('ActiveObject', 'subscribe'), ('ActiveObject', '_subscribe')):
+        f_ = model.cls(cn_).methods.get(mn_)
+        if f_ is not None:
+            n_k += _cpd(run, 'DEFAULT.kind', f_, params={'queue_type'}, why='a subscription made with queue_type=\'lifo\' is registered as a fifo one (or the other way round)')
+    run.floor('queue_type default sites on the subscribe paths', n_k, 1)
     w = fabric.wiring(model)
     fab = w.fab
     h = w.helper
